@@ -96,6 +96,18 @@ fn not_panicking() -> bool {
 // the pages' Arcs are leaked instead of freed (deallocation is not what is being verified)
 fn stub_arc_drop_slow<T: ?Sized, A: core::alloc::Allocator>(_this: &mut Arc<T, A>) {}
 
+// whole-function checksum stubs for the every-child harness: the pages are well-formed, so the
+// real functions return Ok(hash of the used prefix) - here the per-page symbolic constant.  What
+// leaf_checksum / branch_checksum do on arbitrary pages is decided by c12_checksum_total and
+// c12_verify_single_page_tree*, not here.
+fn stub_leaf_ck<T: crate::tree_store::page_store::Page>(_page: &T, _k: Option<usize>, _v: Option<usize>) -> core::result::Result<Checksum, StorageError> {
+    Ok(unsafe { CK[LAST_FETCHED] })
+}
+
+fn stub_branch_ck<T: crate::tree_store::page_store::Page>(_page: &T, _k: Option<usize>) -> core::result::Result<Checksum, StorageError> {
+    Ok(unsafe { CK[LAST_FETCHED] })
+}
+
 fn put16(p: &mut [u8; PG], off: usize, v: u128) {
     let b = v.to_le_bytes();
     p[off] = b[0];
@@ -281,14 +293,15 @@ fn two_level_case(second_type: u8) {
 }
 
 // @harness props=C12 tier=thorough timeout=3600 mem=32 stubbing=1 flavor=nodebug replay=scenario:page_alter attempt=1
-// @desc RawBtree::verify_checksum on a two-level tree whose root branch has the documented layout with ARBITRARY stored child checksums and separator and whose two children are well-formed leaves with ARBITRARY computed checksums: it returns Ok(true) if and only if the root's checksum equals the header's AND EVERY child's computed checksum - the last one included - equals the checksum the branch stores for it; whenever the root and the first child verify, the last child is fetched and checked
+// @desc (attempted: the SAT back end runs out of memory at 30 GB during propositional reduction after 320-850 s, with and without whole-function checksum stubs - page bytes read through the Arc<[u8]> of a PageImpl are not constants for CBMC, so the recursion is explored to the unwind bound) RawBtree::verify_checksum on a two-level tree whose root branch has the documented layout with ARBITRARY stored child checksums and separator and whose two children are well-formed leaves with ARBITRARY computed checksums: it returns Ok(true) if and only if the root's checksum equals the header's AND EVERY child's computed checksum - the last one included - equals the checksum the branch stores for it; whenever the root and the first child verify, the last child is fetched and checked
 // @functions RawBtree::{verify_checksum,verify_checksum_helper}, branch_checksum, leaf_checksum, BranchAccessor::{new,child_page,child_checksum,count_children,key}
 // @bound depth 2, one separator (2 bytes, variable-width keys), two 64-byte one-pair leaves with concrete contents; the three computed checksums, the two stored child checksums and the root checksum in the header arbitrary; profile without debug assertions
-// @stubs PageResolver::get_page -> the k-th fetch returns page k of the harness table and ASSERTS that page k was asked for; xxh3_checksum -> per-page symbolic constant; alloc::fmt::format -> empty; crate::panicking -> false
+// @stubs PageResolver::get_page -> the k-th fetch returns page k of the harness table and ASSERTS that page k was asked for; leaf_checksum / branch_checksum -> Ok(per-page symbolic constant) (the pages are well-formed; their behaviour on arbitrary pages is c12_checksum_total); alloc::fmt::format -> empty; crate::panicking -> false
 #[kani::proof]
 #[kani::unwind(3)]
 #[kani::stub(PageResolver::get_page, stub_get_page_seq)]
-#[kani::stub(crate::tree_store::page_store::xxh3_checksum, stub_checksum)]
+#[kani::stub(crate::tree_store::btree_base::leaf_checksum, stub_leaf_ck)]
+#[kani::stub(crate::tree_store::btree_base::branch_checksum, stub_branch_ck)]
 #[kani::stub(alloc::fmt::format, no_format)]
 #[kani::stub(alloc::sync::Arc::drop_slow, stub_arc_drop_slow)]
 #[kani::stub(crate::panicking, not_panicking)]
